@@ -1,17 +1,7 @@
 #!/bin/bash
-# usage: tools/seed_run.sh <seed name under /verif/seeded> <check IDs...>   (TIER=quick default)
-# applies the seeded change to /repo, runs the checks, reverts; prints one line per check
+# usage: tools/seed_run.sh <seed name under /verif/seeded> <check IDs...>
+# runs the given quick checks against one seeded change in an isolated copy (never touches /repo); prints the result lines
 set -u
 S=$1; shift
-cd /verif
-if ! git -C /repo diff --quiet; then echo "/repo has uncommitted changes"; exit 2; fi
-git -C /repo apply /verif/seeded/$S/patch.diff || { echo "$S: patch does not apply"; exit 2; }
-for id in "$@"; do
-  t0=$(date +%s)
-  out=$(VERIF_SEED=${VERIF_SEED:-1} ./check "$id" "${TIER:-quick}" 2>/dev/null)
-  rc=$?
-  t1=$(date +%s)
-  echo "$S $id rc=$rc $((t1-t0))s $(echo "$out" | grep -E '^(VIOLATION|INCONCLUSIVE)' | head -1)"
-done
-git -C /repo checkout -- .
-for id in "$@"; do rm -f /verif/replays/$id/fail-*.replay; done
+MX=/tmp/mx-$$ IDS="$*" /verif/tools/seed_matrix.sh "$S" >/dev/null 2>&1
+grep -P "^$S\\t" /verif/seeded/RESULTS.tsv | tail -n $# | awk -F'\t' '{print $1, $2, "rc="$3, $4}'
